@@ -1,4 +1,5 @@
 import GridVerif.Props.C10
+import GridVerif.Props.C10.Gen
 
 #print axioms GridVerif.C10.inv_init
 #print axioms GridVerif.C10.inv_step
@@ -20,3 +21,14 @@ import GridVerif.Props.C10
 #print axioms GridVerif.C10.select_slice_default_step
 #print axioms GridVerif.C10.getitem_unsupported
 #print axioms GridVerif.C10.setters_spec
+#print axioms GridVerif.C10.gen_setter_effects
+#print axioms GridVerif.C10.gen_points_set_eq
+#print axioms GridVerif.C10.gen_weights_set_eq
+#print axioms GridVerif.C10.gen_query_eq
+#print axioms GridVerif.C10.getitem_branches
+#print axioms GridVerif.C10.gen_getitem_eq
+#print axioms GridVerif.C10.gen_oned_getitem_eq
+#print axioms GridVerif.C10.genStep_eq_step
+#print axioms GridVerif.C10.genRun_eq_run
+#print axioms GridVerif.C10.gen_inv_step
+#print axioms GridVerif.C10.gen_localgrid_correct
